@@ -73,7 +73,8 @@ structure RCls where
   dis : Bool
   /-- strict ancestors inside the table, nearest first -/
   ancs : List Nat
-  /-- `@dataclass(frozen=True)`: `setattr` on an instance raises `FrozenInstanceError` -/
+  /-- `@dataclass(frozen=True)` (no influence on loading since /repo 6aeb5e3: the `init=False` values are written with
+      `object.__setattr__`; kept as data of the class statement) -/
   frozen : Bool := false
   /-- the class is `Serializable` itself (serializable.py:825-831) -/
   mixin : Bool := false
@@ -251,10 +252,6 @@ def construct (fields : List Field) (args : List (Str × Val)) : Except Out (Lis
       | .ok rest => .ok ((f.name, v) :: rest)
       | .error e => .error e
 
-/-- some `init=False` field has a decoded value (it will be written with `setattr`, serializable.py:907-909) -/
-def nonInitGiven (fields : List Field) (decoded : List (Str × Val)) : Bool :=
-  fields.any (fun f => !f.init && (lookupKey f.name decoded).isSome)
-
 /-- `from_dict(cls, d, drop_extra_fields)` (serializable.py:777-910).  `π cls` is the iteration order of the set
     `all_subclasses(cls)`.  Recursion is on `fuel` (every recursive call of the code is one unit). -/
 def fromDict (R : List RCls) (π : Nat → List Nat) : Nat → Nat → J → Option Bool → Out
@@ -281,9 +278,7 @@ def fromDict (R : List RCls) (π : Nat → List Nat) : Nat → Nat → J → Opt
             let extras := (kv.map (·.1)).filter (fun k => !(rc.fields.map (·.name)).contains k)
             if extras.isEmpty || dropE then                           -- 860-863
               match construct rc.fields decoded with
-              | .ok fs =>                                              -- 907-909: `setattr(instance, name, value)`
-                if rc.frozen && nonInitGiven rc.fields decoded then .raise "FrozenInstanceError".toList
-                else .ok (.inst cls fs)
+              | .ok fs => .ok (.inst cls fs)     -- 907-911: `object.__setattr__` of the init=False values (frozen or not)
               | .error e => e
             else
               let initArgs := (decoded.map (·.1)).filter (fun k => (initNames R cls).contains k)
